@@ -259,14 +259,19 @@ class CodeBase:
             base's listed directories and does not match any exclude
             pattern(s).
         """
-        path = Path(path).resolve()
+        # A symbolic link that leads back to itself names no file at all.
+        try:
+            path = Path(path).resolve()
+        except RuntimeError:
+            return False
 
         # Files that don't exist aren't part of the code base.
         if not path.exists():
             return False
 
-        # Directories cannot be source files.
-        if path.is_dir():
+        # Directories and special files (pipes, sockets, devices) cannot be
+        # source files.
+        if not path.is_file():
             return False
 
         # Files with unrecognized extensions are not source files.
